@@ -37,6 +37,16 @@ func (c *Closure) Equals(c1 *Closure) bool {
 	return true
 }
 
+// hash returns a hash of c that is consistent with Equals: it only depends on
+// the code and the upvalues of c.
+func (c *Closure) hash() uintptr {
+	h := goRuntimeEfaceHash(c.Code, 0)
+	for _, upv := range c.Upvalues {
+		h = goRuntimeEfaceHash(upv.ref, h)
+	}
+	return h
+}
+
 // AddUpvalue append a new upvalue to the closure.
 func (c *Closure) AddUpvalue(cell Cell) {
 	c.Upvalues[c.upvalueIndex] = cell
